@@ -632,16 +632,42 @@ def r33(ctx: Ctx) -> RuleReport:
             n_arms += 1
             st = None
     rep.add(f'{fi.fq}: classification is an if/elif chain ending in an unconditional else', fi.loc(loop),
-            'ok' if chain_ok else 'undecided', f'{n_arms} arms' if chain_ok else 'a marker matching no test would be dropped')
-    exits = [n for n in ast.walk(loop) if isinstance(n, (ast.Break, ast.Continue, ast.Return))]
-    rep.add(f'{fi.fq}: no early exit from the classification loop', fi.loc(loop), 'violation' if exits else 'ok')
+            'ok' if chain_ok else 'info', f'{n_arms} arms' if chain_ok else 'not an if/elif/else chain (the path check below decides)')
+    exits = [n for n in ast.walk(loop) if isinstance(n, (ast.Break, ast.Return))]
+    rep.add(f'{fi.fq}: no early exit from the classification loop', fi.loc(loop), 'violation' if exits else 'ok',
+            'break/return inside the loop: the markers after it are never classified' if exits else '')
+    # every marker is put into exactly one bucket on every path through the loop body
+    from ..resolve import view
+    v = view(ctx, fi)
+    ev = loop.target.id if isinstance(loop.target, ast.Name) else None
+    puts = set()
+    for n in ast.walk(loop):
+        if isinstance(n, ast.Call) and isinstance(n.func, ast.Attribute) and n.func.attr == 'append' and n.args and norm(n.args[0]) == ev:
+            puts.add(v.node_of(n))
+        if isinstance(n, ast.Assign) and isinstance(n.targets[0], ast.Name) and norm(n.value) == ev:
+            puts.add(v.node_of(n))
+    head = v.cfg.node_of(loop)
+    if puts:
+        skip = v.cfg.path_avoiding([(head, 'T')], {head, v.cfg.exit}, lambda nd: nd.id in puts)
+        rep.add(f'{fi.fq}: every marker lands in a bucket', fi.loc(loop), 'violation' if skip else 'ok',
+                'a marker can pass through the loop body without being stored anywhere: ' + ' -> '.join(repr(v.cfg.nodes[x]) for x in skip)[:200] if skip else '')
+        twice = None
+        for pn in puts:
+            twice = twice or v.cfg.path_avoiding([(pn, None)], puts, lambda nd: nd.id == head)
+        rep.add(f'{fi.fq}: no marker lands in two buckets', fi.loc(loop), 'violation' if twice else 'ok')
     rets = [n for n in walk_local(fi.node) if isinstance(n, ast.Return) and n.value is not None]
     buckets = [norm(e) for e in rets[0].value.elts] if rets and isinstance(rets[0].value, ast.Tuple) else []
     stored = set()
+    from ..resolve import unique_def
     for n in ast.walk(loop):
         if isinstance(n, ast.Call) and isinstance(n.func, ast.Attribute) and n.func.attr == 'append':
-            stored.add(norm(n.func.value))
-        if isinstance(n, ast.Assign) and isinstance(n.targets[0], ast.Name):
+            recv = n.func.value
+            d = unique_def(v, recv.id, n) if isinstance(recv, ast.Name) else None
+            if isinstance(d, ast.IfExp) and isinstance(d.body, ast.Name) and isinstance(d.orelse, ast.Name):
+                stored |= {d.body.id, d.orelse.id}          # an alias that selects one of two buckets
+            else:
+                stored.add(norm(recv))
+        if isinstance(n, ast.Assign) and isinstance(n.targets[0], ast.Name) and norm(n.value) == ev:
             stored.add(n.targets[0].id)
     rep.add(f'{fi.fq}: every bucket that is filled is returned', fi.loc(), 'ok' if stored <= set(buckets) and len(buckets) == 4 else 'undecided',
             f'filled {sorted(stored)}, returned {buckets}')
@@ -708,92 +734,113 @@ def r38(ctx: Ctx) -> RuleReport:
     for nm, good in (('has exactly two non-instance relations', ok2), ('its concept is dereifiable', ok3)):
         rep.add(f'{fi.fq}: agenda entry requires: {nm}', fi.loc(st), 'ok' if good else 'undecided',
                 '' if good else f'guards present: {sorted(f for f, p in facts if p)}')
-    # everything that ever flows into the fixed set
-    feeds: List[Tuple[str, ast.AST, str]] = []      # (kind, node, detail); kind: top | targets | bad | unknown | empty
-    loops = [n for n in walk_local(fi.node) if isinstance(n, ast.For) and norm(n.iter) == f'{gp}.triples']
+    # everything that ever flows into the fixed set (followed into a local helper that builds and returns it)
+    def feeds_of(fi, fx, gp, depth=0):
+        feeds: List[Tuple[str, ast.AST, str]] = []      # (kind, node, detail); kind: top | targets | bad | unknown | empty
+        loops = [n for n in walk_local(fi.node) if isinstance(n, ast.For) and norm(n.iter) == f'{gp}.triples']
 
-    def slot2_names(loop: ast.For) -> Tuple[Set[str], Set[str]]:
-        roles, tgts = set(), set()
-        if isinstance(loop.target, ast.Tuple) and len(loop.target.elts) == 3:
-            roles.add(norm(loop.target.elts[1]))
-            tgts.add(norm(loop.target.elts[2]))
-        elif isinstance(loop.target, ast.Name):
-            roles.add(f'{loop.target.id}[1]')
-            tgts.add(f'{loop.target.id}[2]')
-            for n in ast.walk(loop):
-                if isinstance(n, ast.Assign) and isinstance(n.targets[0], ast.Tuple) and len(n.targets[0].elts) == 3 and norm(n.value) == loop.target.id:
-                    roles.add(norm(n.targets[0].elts[1]))
-                    tgts.add(norm(n.targets[0].elts[2]))
-        return roles, tgts
+        def slot2_names(loop: ast.For) -> Tuple[Set[str], Set[str]]:
+            roles, tgts = set(), set()
+            if isinstance(loop.target, ast.Tuple) and len(loop.target.elts) == 3:
+                roles.add(norm(loop.target.elts[1]))
+                tgts.add(norm(loop.target.elts[2]))
+            elif isinstance(loop.target, ast.Name):
+                roles.add(f'{loop.target.id}[1]')
+                tgts.add(f'{loop.target.id}[2]')
+                for n in ast.walk(loop):
+                    if isinstance(n, ast.Assign) and isinstance(n.targets[0], ast.Tuple) and len(n.targets[0].elts) == 3 and norm(n.value) == loop.target.id:
+                        roles.add(norm(n.targets[0].elts[1]))
+                        tgts.add(norm(n.targets[0].elts[2]))
+            return roles, tgts
 
-    def classify_value(v: ast.AST, at: ast.AST):
-        for x in ast.walk(v):
-            if isinstance(x, ast.Attribute) and x.attr == 'top' and norm(x.value) == gp:
-                feeds.append(('top', at, norm(v)[:50]))
-        comps = [x for x in ast.walk(v) if isinstance(x, (ast.SetComp, ast.GeneratorExp, ast.ListComp))]
-        for c in comps:
-            g = c.generators[0]
-            if norm(g.iter) == f'{gp}.triples' and isinstance(g.target, ast.Tuple) and len(g.target.elts) == 3 and len(c.generators) == 1:
-                role, tgt = norm(g.target.elts[1]), norm(g.target.elts[2])
-                conds = {norm(x) for x in g.ifs}
-                if norm(c.elt) == tgt and conds <= {f'{role} != CONCEPT_ROLE', f'CONCEPT_ROLE != {role}'} and conds:
-                    feeds.append(('targets', at, norm(c)[:60]))
+        def classify_value(v: ast.AST, at: ast.AST):
+            for x in ast.walk(v):
+                if isinstance(x, ast.Attribute) and x.attr == 'top' and norm(x.value) == gp:
+                    feeds.append(('top', at, norm(v)[:50]))
+            comps = [x for x in ast.walk(v) if isinstance(x, (ast.SetComp, ast.GeneratorExp, ast.ListComp))]
+            for c in comps:
+                g = c.generators[0]
+                if norm(g.iter) == f'{gp}.triples' and isinstance(g.target, ast.Tuple) and len(g.target.elts) == 3 and len(c.generators) == 1:
+                    role, tgt = norm(g.target.elts[1]), norm(g.target.elts[2])
+                    conds = {norm(x) for x in g.ifs}
+                    if norm(c.elt) == tgt and conds <= {f'{role} != CONCEPT_ROLE', f'CONCEPT_ROLE != {role}'} and conds:
+                        feeds.append(('targets', at, norm(c)[:60]))
+                    else:
+                        feeds.append(('unknown', at, norm(c)[:60]))
                 else:
                     feeds.append(('unknown', at, norm(c)[:60]))
-            else:
-                feeds.append(('unknown', at, norm(c)[:60]))
-        if not comps and not any(isinstance(x, ast.Attribute) and x.attr == 'top' for x in ast.walk(v)):
-            empty = (isinstance(v, ast.Call) and norm(v.func) == 'set' and not v.args) or (isinstance(v, (ast.Set, ast.List)) and not v.elts)
-            feeds.append(('empty' if empty else 'unknown', at, norm(v)[:50]))
-    for n in walk_local(fi.node):
-        if isinstance(n, (ast.Assign, ast.AnnAssign)) and n.value is not None:
-            tg = n.targets[0] if isinstance(n, ast.Assign) else n.target
-            if norm(tg) == fx:
+            if not comps and not any(isinstance(x, ast.Attribute) and x.attr == 'top' for x in ast.walk(v)):
+                empty = (isinstance(v, ast.Call) and norm(v.func) == 'set' and not v.args) or (isinstance(v, (ast.Set, ast.List)) and not v.elts)
+                feeds.append(('empty' if empty else 'unknown', at, norm(v)[:50]))
+        for n in walk_local(fi.node):
+            if isinstance(n, (ast.Assign, ast.AnnAssign)) and n.value is not None:
+                tg = n.targets[0] if isinstance(n, ast.Assign) else n.target
+                if norm(tg) == fx:
+                    classify_value(n.value, n)
+            if isinstance(n, ast.AugAssign) and norm(n.target) == fx:
                 classify_value(n.value, n)
-        if isinstance(n, ast.AugAssign) and norm(n.target) == fx:
-            classify_value(n.value, n)
-        if isinstance(n, ast.Call) and isinstance(n.func, ast.Attribute) and norm(n.func.value) == fx:
-            if n.func.attr == 'update' and n.args:
-                classify_value(n.args[0], n)
-            elif n.func.attr == 'add' and n.args:
-                a = n.args[0]
-                while isinstance(a, ast.Call) and norm(a.func) in ('cast', 'typing.cast') and len(a.args) == 2:
-                    a = a.args[1]
-                if isinstance(a, ast.Attribute) and a.attr == 'top' and norm(a.value) == gp:
-                    feeds.append(('top', n, norm(n)))
-                    continue
-                loop = next((l for l in loops if any(x is n for x in ast.walk(l))), None)
-                if loop is None:
-                    feeds.append(('unknown', n, norm(n)))
-                    continue
-                roles, tgts = slot2_names(loop)
-                if norm(a) not in tgts:
-                    feeds.append(('unknown', n, norm(n)))
-                    continue
-                af = facts_ex(ctx, fi, n)
-                allowed = {(f'{r} == CONCEPT_ROLE', False) for r in roles} | {(f'{r} != CONCEPT_ROLE', True) for r in roles} \
-                    | {(f'CONCEPT_ROLE == {r}', False) for r in roles} | {(f'CONCEPT_ROLE != {r}', True) for r in roles}
-                extra = sorted(c for c in af if c not in allowed and not any(c in facts_ex(ctx, fi, l) for l in [loop]))
-                if not (af & allowed):
-                    feeds.append(('unknown', n, f'{norm(n)} is not restricted to non-instance triples'))
-                elif not extra:
-                    feeds.append(('targets', n, norm(n)))
-                else:
-                    # an extra condition that reads a collection the same loop is still filling depends on the order of the triples
-                    filled = set()
-                    for x in ast.walk(loop):
-                        if isinstance(x, ast.Assign) and isinstance(x.targets[0], ast.Subscript) and isinstance(x.targets[0].value, ast.Name):
-                            filled.add(x.targets[0].value.id)
-                        if isinstance(x, ast.Call) and isinstance(x.func, ast.Attribute) and x.func.attr in ('add', 'append', 'setdefault') \
-                                and isinstance(x.func.value, ast.Name):
-                            filled.add(x.func.value.id)
-                    hit = [(c, p) for c, p in extra if any(isinstance(y, ast.Name) and y.id in filled - {fx} for y in ast.walk(ast.parse(c, mode='eval')))]
-                    if hit:
-                        feeds.append(('bad', n, f'{norm(n)} runs only when `{hit[0][0]}` is {hit[0][1]}, a test on a collection that this very loop is still '
-                                               f'filling: a target whose own triples come later in the list is not recorded, so a node that another '
-                                               f'edge points to can be dereified away'))
+            if isinstance(n, ast.Call) and isinstance(n.func, ast.Attribute) and norm(n.func.value) == fx:
+                if n.func.attr == 'update' and n.args:
+                    classify_value(n.args[0], n)
+                elif n.func.attr == 'add' and n.args:
+                    a = n.args[0]
+                    while isinstance(a, ast.Call) and norm(a.func) in ('cast', 'typing.cast') and len(a.args) == 2:
+                        a = a.args[1]
+                    if isinstance(a, ast.Attribute) and a.attr == 'top' and norm(a.value) == gp:
+                        feeds.append(('top', n, norm(n)))
+                        continue
+                    loop = next((l for l in loops if any(x is n for x in ast.walk(l))), None)
+                    if loop is None:
+                        feeds.append(('unknown', n, norm(n)))
+                        continue
+                    roles, tgts = slot2_names(loop)
+                    if norm(a) not in tgts:
+                        feeds.append(('unknown', n, norm(n)))
+                        continue
+                    af = facts_ex(ctx, fi, n)
+                    allowed = {(f'{r} == CONCEPT_ROLE', False) for r in roles} | {(f'{r} != CONCEPT_ROLE', True) for r in roles} \
+                        | {(f'CONCEPT_ROLE == {r}', False) for r in roles} | {(f'CONCEPT_ROLE != {r}', True) for r in roles}
+                    extra = sorted(c for c in af if c not in allowed and not any(c in facts_ex(ctx, fi, l) for l in [loop]))
+                    if not (af & allowed):
+                        feeds.append(('unknown', n, f'{norm(n)} is not restricted to non-instance triples'))
+                    elif not extra:
+                        feeds.append(('targets', n, norm(n)))
                     else:
-                        feeds.append(('unknown', n, f'{norm(n)} additionally conditional on {extra}'))
+                        # an extra condition that reads a collection the same loop is still filling depends on the order of the triples
+                        filled = set()
+                        for x in ast.walk(loop):
+                            if isinstance(x, ast.Assign) and isinstance(x.targets[0], ast.Subscript) and isinstance(x.targets[0].value, ast.Name):
+                                filled.add(x.targets[0].value.id)
+                            if isinstance(x, ast.Call) and isinstance(x.func, ast.Attribute) and x.func.attr in ('add', 'append', 'setdefault') \
+                                    and isinstance(x.func.value, ast.Name):
+                                filled.add(x.func.value.id)
+                        hit = [(c, p) for c, p in extra if any(isinstance(y, ast.Name) and y.id in filled - {fx} for y in ast.walk(ast.parse(c, mode='eval')))]
+                        if hit:
+                            feeds.append(('bad', n, f'{norm(n)} runs only when `{hit[0][0]}` is {hit[0][1]}, a test on a collection that this very loop is still '
+                                                   f'filling: a target whose own triples come later in the list is not recorded, so a node that another '
+                                                   f'edge points to can be dereified away'))
+                        else:
+                            feeds.append(('unknown', n, f'{norm(n)} additionally conditional on {extra}'))
+        # the set may come out of a helper: `a, fixed, b = helper(g)`
+        for n in walk_local(fi.node):
+            if isinstance(n, ast.Assign) and isinstance(n.targets[0], ast.Tuple) and isinstance(n.value, ast.Call):
+                names = [norm(e) for e in n.targets[0].elts]
+                if fx in names:
+                    hs = [t.func for t in ctx.cg.resolve_call(n.value, fi) if t.kind == 'func' and t.func.module.name == fi.module.name]
+                    rets = [r for r in walk_local(hs[0].node) if isinstance(r, ast.Return)] if len(hs) == 1 else []
+                    ok = False
+                    if len(rets) == 1 and isinstance(rets[0].value, ast.Tuple) and len(rets[0].value.elts) == len(names) and depth < 2:
+                        slot = rets[0].value.elts[names.index(fx)]
+                        garg = [i for i, a in enumerate(n.value.args) if norm(a) == gp]
+                        if isinstance(slot, ast.Name) and garg:
+                            feeds += feeds_of(hs[0], slot.id, hs[0].positional[garg[0]], depth + 1)
+                            ok = True
+                    if not ok:
+                        feeds.append(('unknown', n, norm(n)[:60]))
+        return feeds
+    feeds = feeds_of(fi, fx, gp)
+    if not feeds:
+        feeds = [('unknown', st, f'no definition of `{fx}` found')]
     kinds = {k for k, _, _ in feeds}
     listing = '; '.join(f'{k}: {d}' for k, _, d in feeds)
     for k, n, d in feeds:
@@ -818,6 +865,7 @@ def r38(ctx: Ctx) -> RuleReport:
         rep.undecided(key, fi.loc(), listing[:200])
     # and the agenda loop runs after the recording has finished
     sn = cfg.node_of(st)
+    loops = [n for n in walk_local(fi.node) if isinstance(n, ast.For) and norm(n.iter) == f'{gp}.triples']
     scan = [cfg.node_of(l) for l in loops if any(k == 'targets' and any(x is n for x in ast.walk(l)) for k, n, _ in feeds)]
     if scan:
         rep.add(f'{fi.fq}: candidates are examined only after all triples were scanned', fi.loc(st),
